@@ -12,8 +12,8 @@ import (
 )
 
 func init() {
-	register("C07", "Schema closure: (R1) ValidateSchemaDocument returns a schema only after validateTypeDefinitions and validateDirectiveDefinitions succeeded, these apply the per-definition check to every entry of Schema.Types / Schema.Directives, and no *gqlerror.Error result in the loader is dropped; (R2) every reference position of the SDL tree is checked on every success path: type references through validateTypeRef, directive lists through validateDirectives with the location the specification assigns to the node, interfaces through validateImplements, union members against {OBJECT}, names through validateName (type names for every entry of Schema.Types, exempt only when BuiltIn); (R3) every registration into Schema.Types/Directives is guarded by a redeclaration test on the same key; (R4) LoadSchema/MustLoadSchema always put the built-in prelude first, the prelude source is BuiltIn, and the introspection fields are appended whenever a query root exists; (R5) the kind tables used by the loader equal the specification's (output kinds, input kinds — both isValidKind and Definition.IsInputType —, union members, implemented types), each DefinitionKind has the DirectiveLocation of the same spelling, and the four emptiness tests exist; (R6) structural type comparisons (isCovariant, Type.IsCompatible) compare like with like at each level and read NonNull of both sides in every descent cycle; (R7) inside the loader's check functions every branch is a check (one side can only fail), loop control, or one of the dispatch conditions the specification gives (kind dispatch, built-in exemption, required-argument test, optional lookup) — no other condition decides whether checks run; (R8) every definition stored into Schema.Types/Directives or appended to PossibleTypes/Implements is non-nil at the registration (not a lookup or search result, or nil-tested on every path). (R9) parsing and loading keep no process-wide state: package-level variables are only read after init. (R10) BuiltIn is copied from a source to its own definitions and extensions only.", runC07)
-	register("C17", "Order independence: (R1) register before resolve — in ValidateSchemaDocument no lookup of Schema.Types/Schema.Directives under a referenced name (member, interface, field type, root, directive use), in the function or in any callee, can be followed on a CFG path by a registration into that map; (R2) the per-definition checks iterate sorted names (C10.R1), so which error is reported does not depend on map or source order; (R3) SchemaDocument.Merge appends every list of the document — on every path, or skipped only because that list or the other document is empty — and ParseSchemas merges every source; (R4) every loader error is located at the Position of a node involved (ErrorPosf with a node position), so it names that node's file; (R5) the loader merges extensions by appending to the definition's lists, so the lists the parser hands out must own their memory: a window of a buffer kept in the parser struct leaves the parser only capacity-clipped (buf[a:b:b]). (R6) no check of the loader is skipped because of an earlier one (C07.R7).", runC17)
+	register("C07", "Schema closure: (R1) ValidateSchemaDocument returns a schema only after validateTypeDefinitions and validateDirectiveDefinitions succeeded, these apply the per-definition check to every entry of Schema.Types / Schema.Directives, and no *gqlerror.Error result in the loader is dropped; (R2) every reference position of the SDL tree is checked on every success path: type references through validateTypeRef, directive lists through validateDirectives with the location the specification assigns to the node, interfaces through validateImplements, union members against {OBJECT}, names through validateName (type names for every entry of Schema.Types, exempt only when BuiltIn); (R3) every registration into Schema.Types/Directives is guarded by a redeclaration test on the same key; (R4) LoadSchema/MustLoadSchema always put the built-in prelude first, the prelude source is BuiltIn, and the introspection fields are appended whenever a query root exists; (R5) the kind tables used by the loader equal the specification's (output kinds, input kinds — both isValidKind and Definition.IsInputType —, union members, implemented types), each DefinitionKind has the DirectiveLocation of the same spelling, and the four emptiness tests exist; (R6) structural type comparisons (isCovariant, Type.IsCompatible) compare like with like at each level and read NonNull of both sides in every descent cycle; (R7) inside the loader's check functions every branch is a check (one side can only fail), loop control, or one of the dispatch conditions the specification gives (kind dispatch, built-in exemption, required-argument test, optional lookup) — no other condition decides whether checks run; (R8) every definition stored into Schema.Types/Directives or appended to PossibleTypes/Implements is non-nil at the registration (not a lookup or search result, or nil-tested on every path). (R9) parsing and loading keep no process-wide state: package-level variables are only read after init. (R10) BuiltIn is copied from a source to its own definitions and extensions only. (R11) the schema's registries only grow; (R12) every member list of an extension is merged for every kind the parser stores it under.", runC07)
+	register("C17", "Order independence: (R1) register before resolve — in ValidateSchemaDocument no lookup of Schema.Types/Schema.Directives under a referenced name (member, interface, field type, root, directive use), in the function or in any callee, can be followed on a CFG path by a registration into that map; (R2) the per-definition checks iterate sorted names (C10.R1), so which error is reported does not depend on map or source order; (R3) SchemaDocument.Merge appends every list of the document — on every path, or skipped only because that list or the other document is empty — and ParseSchemas merges every source; (R4) every loader error is located at the Position of a node involved (ErrorPosf with a node position), so it names that node's file; (R5) the loader merges extensions by appending to the definition's lists, so the lists the parser hands out must own their memory: a window of a buffer kept in the parser struct leaves the parser only capacity-clipped (buf[a:b:b]). (R6) no check of the loader is skipped because of an earlier one (C07.R7). (R7) extension merge coverage per kind; (R8) searches through definition-ordered lists decide by existence.", runC17)
 }
 
 // ---------------------------------------------------------------------------
